@@ -105,8 +105,30 @@ pub fn decode_random(src: &mut Source) -> Box<dyn Case> {
     let mut titles: Vec<String> = Vec::new();
     // what the user is in the middle of typing: (target text, characters typed so far)
     let mut typing: Option<(Vec<char>, usize)> = None;
-    while ops.len() < 40 && (ops.len() < 2 || src.chance(9, 10)) {
-        match src.weighted(&[8, 8, 2, 3, 2, 6]) {
+    while ops.len() < 60 && (ops.len() < 2 || src.chance(9, 10)) {
+        match src.weighted(&[8, 8, 2, 3, 2, 6, 1, 1]) {
+            6 => {
+                // reload: clear and fill with exactly as many records as the store held
+                let n = titles.len();
+                if n > 0 {
+                    ops.push(Op::Clear);
+                    let mut t2 = titles.clone();
+                    shuffle(src, &mut t2);
+                    for t in t2.iter() {
+                        ops.push(Op::Add(t.clone(), src.below(5) * 10));
+                    }
+                    titles = t2;
+                }
+            }
+            7 => {
+                // bulk load: 8-20 records at once
+                for _ in 0..src.range(8, 20) {
+                    let nw = src.range(1, 3);
+                    let t = (0..nw).map(|_| src.pick(&vocab).clone()).collect::<Vec<_>>().join(" ");
+                    titles.push(t.clone());
+                    ops.push(Op::Add(t, src.below(5) * 10));
+                }
+            }
             5 => {
                 // search-as-you-type: every keystroke is a search; the target is a vocabulary word
                 // (or two), possibly with an early typo, typed one more character each time
@@ -166,7 +188,10 @@ pub fn decode_random(src: &mut Source) -> Box<dyn Case> {
                 };
                 ops.push(Op::Search(q));
             }
-            2 => ops.push(Op::Clear),
+            2 => {
+                ops.push(Op::Clear);
+                titles.clear();
+            }
             3 => ops.push(Op::Limit(src.below(7))),
             _ => {
                 let l = src.pick(&["", "<", "[[", "a", "{", "<em>", "«", "【"]).to_string();
